@@ -76,32 +76,40 @@ func New(filename string, src io.Reader, n int) (*Input, error) {
 func (i *Input) loadFirst() error {
 	high := len(i.buff) / 2
 
-	n, err := i.src.Read(i.buff[:high])
-	if err != nil {
-		return err
-	}
+	// A single Read may return fewer bytes than requested, with or without io.EOF.
+	// Keep reading until the sub-buffer is full or the source is exhausted.
+	n, err := io.ReadFull(i.src, i.buff[:high])
 
 	if n < high {
 		i.buff[n] = eof
 	}
 
-	return nil
+	// The source ended in the middle of the sub-buffer; the sentinel marks the end of input.
+	if err == io.ErrUnexpectedEOF {
+		return nil
+	}
+
+	return err
 }
 
 // loadSecond reads the input and loads the second sub-buffer.
 func (i *Input) loadSecond() error {
 	low, high := len(i.buff)/2, len(i.buff)
 
-	n, err := i.src.Read(i.buff[low:high])
-	if err != nil {
-		return err
-	}
+	// A single Read may return fewer bytes than requested, with or without io.EOF.
+	// Keep reading until the sub-buffer is full or the source is exhausted.
+	n, err := io.ReadFull(i.src, i.buff[low:high])
 
 	if n < high-low {
 		i.buff[low+n] = eof
 	}
 
-	return nil
+	// The source ended in the middle of the sub-buffer; the sentinel marks the end of input.
+	if err == io.ErrUnexpectedEOF {
+		return nil
+	}
+
+	return err
 }
 
 // next returns the current byte at the forward pointer and advances the forward pointer to the next byte.
